@@ -293,11 +293,13 @@ func (c *codecV2) EncodeRequest(req *tikvrpc.Request) (*tikvrpc.Request, error) 
 		r := *req.BatchCop()
 		r.Regions = c.encodeRegionInfos(r.Regions)
 		r.TableRegions = c.encodeTableRegions(r.TableRegions)
+		r.TableShardInfos = c.encodeTableShardInfos(r.TableShardInfos)
 		req.Req = &r
 	case tikvrpc.CmdMPPTask:
 		r := *req.DispatchMPPTask()
 		r.Regions = c.encodeRegionInfos(r.Regions)
 		r.TableRegions = c.encodeTableRegions(r.TableRegions)
+		r.TableShardInfos = c.encodeTableShardInfos(r.TableShardInfos)
 		req.Req = &r
 
 	// Other requests.
@@ -317,11 +319,15 @@ func (c *codecV2) EncodeRequest(req *tikvrpc.Request) (*tikvrpc.Request, error) 
 		r := *req.Cop()
 		r.Ranges = c.encodeCopRanges(r.Ranges)
 		r.Tasks = c.encodeStoreBatchTasks(r.Tasks)
+		r.TableShardInfos = c.encodeTableShardInfos(r.TableShardInfos)
+		r.VersionedRanges = c.encodeVersionedRanges(r.VersionedRanges)
 		req.Req = &r
 	case tikvrpc.CmdCopStream:
 		r := *req.Cop()
 		r.Ranges = c.encodeCopRanges(r.Ranges)
 		r.Tasks = c.encodeStoreBatchTasks(r.Tasks)
+		r.TableShardInfos = c.encodeTableShardInfos(r.TableShardInfos)
+		r.VersionedRanges = c.encodeVersionedRanges(r.VersionedRanges)
 		req.Req = &r
 	case tikvrpc.CmdMvccGetByKey:
 		r := *req.MvccGetByKey()
@@ -987,11 +993,39 @@ func (c *codecV2) encodeTableRegions(infos []*coprocessor.TableRegions) []*copro
 	return encodedInfos
 }
 
+func (c *codecV2) encodeVersionedRanges(ranges []*coprocessor.VersionedKeyRange) []*coprocessor.VersionedKeyRange {
+	var encoded []*coprocessor.VersionedKeyRange
+	for _, r := range ranges {
+		v := *r
+		if r.Range != nil {
+			v.Range = c.encodeCopRange(r.Range)
+		}
+		encoded = append(encoded, &v)
+	}
+	return encoded
+}
+
+func (c *codecV2) encodeTableShardInfos(infos []*coprocessor.TableShardInfos) []*coprocessor.TableShardInfos {
+	var encoded []*coprocessor.TableShardInfos
+	for _, info := range infos {
+		i := *info
+		i.ShardInfos = nil
+		for _, shard := range info.ShardInfos {
+			s := *shard
+			s.Ranges = c.encodeCopRanges(shard.Ranges)
+			i.ShardInfos = append(i.ShardInfos, &s)
+		}
+		encoded = append(encoded, &i)
+	}
+	return encoded
+}
+
 func (c *codecV2) encodeStoreBatchTasks(tasks []*coprocessor.StoreBatchTask) []*coprocessor.StoreBatchTask {
 	var encodedTasks []*coprocessor.StoreBatchTask
 	for _, task := range tasks {
 		t := *task
 		t.Ranges = c.encodeCopRanges(t.Ranges)
+		t.VersionedRanges = c.encodeVersionedRanges(t.VersionedRanges)
 		encodedTasks = append(encodedTasks, &t)
 	}
 	return encodedTasks
